@@ -136,6 +136,8 @@ type Sim struct {
 	forceOn     []string // site-name substrings whose yields are always enabled
 	Ch          *Choices
 	free        atomic.Bool
+	lateMu      sync.Mutex
+	Late        []string // "stream|bytes" written while draining
 	parkSig     chan struct{}
 	Steps       int
 	StepCap     int
@@ -720,7 +722,17 @@ type Writer struct {
 
 func (w *Writer) Write(p []byte) (int, error) {
 	s := w.Sim
-	if s == nil || s.free.Load() {
+	if s == nil {
+		return len(p), nil
+	}
+	if s.free.Load() {
+		// the run is over and the remaining goroutines are being drained (all at once, unscheduled): what they
+		// still write is kept apart -- it is output that outlived the run
+		s.lateMu.Lock()
+		if len(s.Late) < 64 {
+			s.Late = append(s.Late, w.Stream+"|"+string(p))
+		}
+		s.lateMu.Unlock()
 		return len(p), nil
 	}
 	g := s.cur
